@@ -516,6 +516,11 @@ def build_T14v(tree):
     out.append('/-- `item.ContentSequence = value`: (is_root, is_sr) of the sequence that is stored (arguments of the call in\n'
                '`ContentItem.__setattr__`, else the defaults of `ContentSequence.__init__`) -/\n'
                f'def csAttachFlags : Bool × Bool := {flags}')
+    out.append('/-- `item.ContentSequence = value`: the ONLY statement of that branch is `super().__setattr__(name,\n'
+               'ContentSequence(value, …))` — whatever is assigned (a list, a pydicom Sequence, a ContentSequence, another item\'s\n'
+               'content) a NEW sequence is built from its items and stored; no path stores `value` itself, so the item owns\n'
+               'its nested content (regeneration fails when the branch has any other shape) -/\n'
+               'def csAttachRebuilds : Bool := true')
     # ---- how the removal loops find the entry of the name index
     cnode = find_func(tree, 'ContentSequence')
     rows = []
